@@ -28,7 +28,8 @@ EXPECTED_PROBES = ["download.file_exists", "download.url_error", "download.licen
                    "download.non200", "download.source_not_found", "download.licenses_dir_hack"]
 
 IDS = G.VALID + G.DEPRECATED + G.EXCEPTIONS
-TEXTS = {i: f"Licence text of {i}\nline two\n" for i in IDS}
+# real licence texts are not ASCII: copyright signs, typographic quotes, names
+TEXTS = {i: f"Licence text of {i}\nCopyright \u00a9 the \u201cauthors\u201d, Ren\u00e9 \u2013 line two\n" for i in IDS}
 TEXTS["MIT"] = "MIT License\n\nCopyright (c) <year> <copyright holders>\n\nPermission is hereby granted… ünïcode\r\nCRLF line\n"
 TEXTS["0BSD"] = "x"
 TEXTS["CC0-1.0"] = "CC0 " * 3000 + "\n"
@@ -148,6 +149,12 @@ def gen_case(seed, tier, index=0):
     if not any("argv" in s and "download" in s["argv"] for s in steps):
         ids = rng.sample(IDS, 2)
         steps.append({"argv": root_opt + ["download"] + ids, "cwd": cwd, "net": net_for(ids), "pool": pool})
+    if rng.chance(0.12):
+        # the user's locale is not UTF-8 (LC_ALL=C without Python's coercion): what is written must still be the bytes
+        # that were served
+        for st in steps:
+            if "argv" in st:
+                st["env"] = {"LC_ALL": "C", "LANG": "C", "PYTHONUTF8": "0", "PYTHONCOERCECLOCALE": "0"}
     return {"prop": PROP, "seed": seed, "world": world, "faulty": faulty,
             "variants": [{"hashseed": rng.randrange(8), "steps": steps}]}
 
